@@ -240,7 +240,13 @@ Definition exec (ps : pstate_) (toks : list str) : pstate_ * str :=
           let sd' := match r with Some u => resync sd (Some u) | None => mk_slot None (s_has_sp sd) (s_sp sd) end in
           let ps' := put ps d sd' in
           let same := match src, r with Some a, Some b => url_eqb a b | _, _ => false end in
-          (ps', lit "reparse " ++ (if is_some r then lit "ok" else lit "fail") ++ lit " same=" ++ bit same ++ sp_ (st_str ps' d))
+          let quirk := match src with
+                       | Some a => is_file a && (str_eqb (get_hostname a) s_localhost ||
+                                     match get_pathname a with
+                                     | 47 :: x :: 124 :: rest => is_ascii_alpha x && match rest with [] => true | y :: _ => y =? 47 end
+                                     | _ => false end)
+                       | None => false end in
+          (ps', lit "reparse " ++ (if is_some r then lit "ok" else lit "fail") ++ lit " same=" ++ bit same ++ lit " quirk=" ++ bit quirk ++ sp_ (st_str ps' d))
         | _, _ => (ps, err)
         end
       | _ => (ps, err)
